@@ -45,6 +45,13 @@ CHECKS = {
              "Each history is built twice for real -- scalar, vector, covariance, correlation + errors, absolute equivalents of relative sources, wrapper keywords, YAML shorthand (numbers, lists, percent strings, top-level keys, dict constraints) and explicit YAML, "
              "model as callable / library name / SymPy string / source text -- and total covariance, cost at three parameter points, constraint cost and do_fit results are compared pairwise and with the spec's normal form.",
         note="Trusted: TLC, harness/adapters/forms.py. 3 data points, 2 parameters; tolerance 1e-12 on covariances, 1e-9 on costs, 1e-3 sigma on fit results."),
+    "C18": dict(
+        category="exploration", design_ref="DESIGN.md 4.12, 5/C18",
+        technique="TLA+ spec PlotView.tla (fit state versions, Plot object constructed at one version and drawn at a later one, wiring table artist -> observable per fit type / cost kind / panel) model-checked with TLC; TLC-generated histories of mutate / fit / make plot / draw(options) replayed on real fits rendered headless, every matplotlib artist compared with the fit's numbers",
+        text="TLC checks DrawnIsCurrent (a draw shows the current version whatever happened since the Plot was made), PoissonTermIffPoissonCost, BandOnlyWithResults over all histories in the bound for 7 (fit type, cost) pairs with one or two fits. "
+             "Each Draw renders a real plot: data markers, x / y error bars (total uncertainty (+) sqrt(counts) for Poisson costs; half bin width), model curve (model function at the current parameters), uncertainty band (numerical Jacobian x parameter covariance), "
+             "histogram bars and density, index steps, ratio / residual / pull panels and their bands, legend numbers -- compared with observables read from the fit object and combined by the documented formulas.",
+        note="Level exploration: the spec contributes the schedule and the wiring table, the comparison is by sampling histories. Trusted: TLC, harness/adapters/plotview.py, matplotlib containers. Asymmetric uncertainties are computed before plot() (the profiling wobble is C08's subject)."),
     "C02": dict(
         category="model_checking", design_ref="DESIGN.md 4.2, 5/C02",
         technique="TLA+ spec ErrorModel.tla (sources, reference modes, per-source and total caches, model stale flag, pending histogram entries) model-checked with TLC for 6 container kinds; every bounded history replayed on the real containers / parametric models against the spec's exact integer covariance",
